@@ -174,6 +174,19 @@ func Snapshot(supi string) Snap {
 	return s
 }
 
+// SetAcctRequestNum puts the subscriber's credit-control request counter of a rating group where that many requests
+// would have left it (a state reachable only by sending them all).
+func SetAcctRequestNum(supi string, rg int32, n uint32) bool {
+	ue, ok := chf_context.GetSelf().ChfUeFindBySupi(supi)
+	if !ok {
+		return false
+	}
+	ue.CULock.Lock()
+	defer ue.CULock.Unlock()
+	ue.AcctRequestNum[rg] = n
+	return true
+}
+
 // Locked reports whether the subscriber's lock is held right now.
 func Locked(supi string) bool {
 	ue, ok := chf_context.GetSelf().ChfUeFindBySupi(supi)
